@@ -109,6 +109,7 @@ X0(id, mode, tw) ==
    lib |-> <<>>,         \* generation n -> functions the library itself has started (heartbeat loop, watchers)
    exited |-> {},        \* <<n, k, own>>: application functions that announced their return (fn.exit)
    offer |-> "",         \* side of the Offer rendez-vous already seen: "" | "run" | "app"
+   offerGen |-> 0,       \* ... and the generation it handed over
    errPend |-> "",       \* ReportErr taken on the run-loop side, the application's next.err still to come
    close |-> 0,          \* 0 | 1: close.call seen | 2: CloseCall taken
    leaving |-> 0,        \* 0 | 1: Leave taken, FindCoordinator of leaveGroup expected | 2: LeaveGroup expected
@@ -251,12 +252,14 @@ FnExitEv(e) ==
             THEN Stutter /\ x' = [x EXCEPT !.exited = @ \cup {<<f[1], f[2], e.why = "own">>}] /\ Count("s_fnexit")
             ELSE FnReturn(f, e.why = "own") /\ UNCHANGED x /\ Count("FnReturn_untracked")
 
-\* the two sides of the rendez-vous `cg.next <- &gen`: whichever is recorded first takes the step
+\* the two sides of the rendez-vous `cg.next <- &gen`: whichever is recorded first takes the step; the other side
+\* may be recorded much later (the run loop can be generations ahead when the application logs next.return)
 OfferEv(side, e) ==
-  /\ gen >= 1 /\ e.gen = x.rgen[gen] /\ e.member = x.ids[memberID]
-  /\ IF x.offer # "" /\ x.offer # side
-       THEN Stutter /\ x' = [x EXCEPT !.offer = ""] /\ Count("s_offer_other_side")
-       ELSE x.offer = "" /\ Offer /\ x' = [x EXCEPT !.offer = side] /\ Count("Offer")
+  IF x.offer # "" /\ x.offer # side
+    THEN /\ e.gen = x.rgen[x.offerGen]
+         /\ Stutter /\ x' = [x EXCEPT !.offer = ""] /\ Count("s_offer_other_side")
+    ELSE /\ x.offer = "" /\ gen >= 1 /\ e.gen = x.rgen[gen] /\ e.member = x.ids[memberID]
+         /\ Offer /\ x' = [x EXCEPT !.offer = side, !.offerGen = gen] /\ Count("Offer")
 
 NextCallEv ==
   \/ AppNext /\ UNCHANGED x /\ Count("AppNext")
